@@ -466,9 +466,9 @@ def worker(ctx, job):
 
 def run(ctx):
     K = ctx.pick(12, 16)
-    jobs = [{"what": "loopback", "k": k, "N": ctx.pick(40, 700)} for k in range(K)]
+    jobs = [{"what": "loopback", "k": k, "N": ctx.pick(40, 4000)} for k in range(K)]
     jobs.append({"what": "doubles", "L": ctx.pick(4, 5)})
-    ctx.shard(jobs, timeout=ctx.pick(120, 900))
+    ctx.shard(jobs, timeout=ctx.pick(120, 1500))
     ctx.extra["bound_in_service_rounds"] = BOUND
     for kind in ("Client", "Patron", "TcpClientStack"):
         ctx.floor("reconnect_after_loss_%s" % kind, ctx.pick(40, 700))
